@@ -783,3 +783,57 @@ package evaluator
 
 //@ func toInt
 //@   note depth-bounded: the only recursive call passes a decimal128.Decimal, whose case does not recurse
+
+// ---------------------------------------------------------------------------
+// ordering (C13)
+
+//@ func sortByNumber.Less
+//@   ensures[C13] order: result == (decCompare(s.by[i], s.by[j]) < 0)
+//@ func sortByString.Less
+//@   ensures[C13 C11] order: result == (s.by[i] < s.by[j])
+//@ func sortByNumber.Swap
+//@   ensures[C13] pairs: s.items[i] == old(s.items[j]) && s.items[j] == old(s.items[i]) && s.by[i] == old(s.by[j]) && s.by[j] == old(s.by[i])
+//@ func sortByString.Swap
+//@   ensures[C13] pairs: s.items[i] == old(s.items[j]) && s.items[j] == old(s.items[i]) && same(s.by[i], old(s.by[j])) && same(s.by[j], old(s.by[i]))
+
+//@ ghost allStr(h Heap, s Slice, n Int) Bool = n <= 0 || (allStr(h, s, n - 1) && isStr(at(h, s, n - 1)))
+//@ ghost allNum(h Heap, s Slice, n Int) Bool = n <= 0 || (allNum(h, s, n - 1) && numOk(at(h, s, n - 1)))
+//@ axiom forall x Dec :: {decCmp(x, x)} decCmp(x, x) == 0 || decCmp(x, x) == 0 - 2
+//@ axiom forall x Dec, y Dec :: {decCmp(x, y)} (decCmp(x, y) == 1 <==> decCmp(y, x) == 0 - 1) && (decCmp(x, y) == 0 <==> decCmp(y, x) == 0)
+//@ axiom forall x Dec, y Dec, z Dec :: {decCmp(x, y), decCmp(z, y)} (decCmp(x, y) == 0 || decCmp(x, y) == 0 - 1) && decCmp(z, y) == 1 ==> decCmp(x, z) == 0 - 1
+//@ axiom forall x Dec, y Dec, z Dec :: {decCmp(x, y), decCmp(z, y)} (decCmp(x, y) == 0 || decCmp(x, y) == 1) && decCmp(z, y) == 0 - 1 ==> decCmp(x, z) == 1
+//@ axiom forall h Heap, s Slice, n Int, k Int :: {allStr(h, s, n), at(h, s, k)} allStr(h, s, n) && 0 <= k && k < n ==> isStr(at(h, s, k))
+//@ axiom forall h Heap, s Slice, n Int, k Int :: {allNum(h, s, n), at(h, s, k)} allNum(h, s, n) && 0 <= k && k < n ==> numOk(at(h, s, k))
+
+//@ func arrayMax
+//@   tags C13 C02 C03 C06
+//@   ensures type.array: !isArr(v) ==> result0 == nil && isTypeErr(result1)
+//@   ensures empty: isArr(v) && len(arr(v)) == 0 ==> result0 == nil && result1 == nil
+//@   ensures[C13] type.first: isArr(v) && len(arr(v)) > 0 && !isStr(arr(v)[0]) && !numOk(arr(v)[0]) ==> result0 == nil && isTypeErr(result1)
+//@   ensures[C13 C11] strings: isArr(v) && len(arr(v)) > 0 && isStr(arr(v)[0]) && result1 == nil ==> isStr(result0) && (forall k Int :: 0 <= k && k < len(arr(v)) ==> isStr(arr(v)[k]) && !(str(arr(v)[k]) > str(result0)))
+//@   ensures[C13] strings.mixed: isArr(v) && len(arr(v)) > 0 && isStr(arr(v)[0]) ==> (result1 == nil <==> allStr(old(heap), arr(v), len(arr(v)))) && (result1 != nil ==> result0 == nil && isTypeErr(result1))
+//@   ensures[C13 C05] numbers: isArr(v) && len(arr(v)) > 0 && numOk(arr(v)[0]) && result1 == nil ==> isDec(result0) && (forall k Int :: 0 <= k && k < len(arr(v)) ==> numOk(arr(v)[k]) && decCmp(numDec(arr(v)[k]), dec(result0)) != 1)
+//@   ensures[C13] numbers.mixed: isArr(v) && len(arr(v)) > 0 && numOk(arr(v)[0]) ==> (result1 == nil <==> allNum(old(heap), arr(v), len(arr(v)))) && (result1 != nil ==> result0 == nil && isTypeErr(result1))
+//@   loop 1
+//@     invariant isArr(v0) && a == arr(v0) && len(a) > 0 && isStr(a[0]) && aligned(max) && allStr(old(heap), a, iter + 1)
+//@     invariant forall k Int :: 0 <= k && k <= iter ==> isStr(a[k]) && !(str(a[k]) > max)
+//@   loop 2
+//@     invariant isArr(v0) && a == arr(v0) && len(a) > 0 && numOk(a[0]) && allNum(old(heap), a, iter + 1)
+//@     invariant forall k Int :: 0 <= k && k <= iter ==> numOk(a[k]) && decCmp(numDec(a[k]), max) != 1
+//@     invariant forall k Int :: 0 <= k && k < len(a) - 1 ==> a[1:][k] == at(old(heap), a, k + 1)
+//@ func arrayMin
+//@   tags C13 C02 C03 C06
+//@   ensures type.array: !isArr(v) ==> result0 == nil && isTypeErr(result1)
+//@   ensures empty: isArr(v) && len(arr(v)) == 0 ==> result0 == nil && result1 == nil
+//@   ensures[C13] type.first: isArr(v) && len(arr(v)) > 0 && !isStr(arr(v)[0]) && !numOk(arr(v)[0]) ==> result0 == nil && isTypeErr(result1)
+//@   ensures[C13 C11] strings: isArr(v) && len(arr(v)) > 0 && isStr(arr(v)[0]) && result1 == nil ==> isStr(result0) && (forall k Int :: 0 <= k && k < len(arr(v)) ==> isStr(arr(v)[k]) && !(str(arr(v)[k]) < str(result0)))
+//@   ensures[C13] strings.mixed: isArr(v) && len(arr(v)) > 0 && isStr(arr(v)[0]) ==> (result1 == nil <==> allStr(old(heap), arr(v), len(arr(v)))) && (result1 != nil ==> result0 == nil && isTypeErr(result1))
+//@   ensures[C13 C05] numbers: isArr(v) && len(arr(v)) > 0 && numOk(arr(v)[0]) && result1 == nil ==> isDec(result0) && (forall k Int :: 0 <= k && k < len(arr(v)) ==> numOk(arr(v)[k]) && decCmp(numDec(arr(v)[k]), dec(result0)) != 0 - 1)
+//@   ensures[C13] numbers.mixed: isArr(v) && len(arr(v)) > 0 && numOk(arr(v)[0]) ==> (result1 == nil <==> allNum(old(heap), arr(v), len(arr(v)))) && (result1 != nil ==> result0 == nil && isTypeErr(result1))
+//@   loop 1
+//@     invariant isArr(v0) && a == arr(v0) && len(a) > 0 && isStr(a[0]) && aligned(min) && allStr(old(heap), a, iter + 1)
+//@     invariant forall k Int :: 0 <= k && k <= iter ==> isStr(a[k]) && !(str(a[k]) < min)
+//@   loop 2
+//@     invariant isArr(v0) && a == arr(v0) && len(a) > 0 && numOk(a[0]) && allNum(old(heap), a, iter + 1)
+//@     invariant forall k Int :: 0 <= k && k <= iter ==> numOk(a[k]) && decCmp(numDec(a[k]), min) != 0 - 1
+//@     invariant forall k Int :: 0 <= k && k < len(a) - 1 ==> a[1:][k] == at(old(heap), a, k + 1)
